@@ -11,6 +11,7 @@ for g in vxlib.load_groups():
     outs = vxlib.run_vx(g)
     for n, o in outs.items():
         if o.get("n_closures") or o.get("n_loops"):
-            shapes[f"{g['name']}:{n}"] = {"closures": o["n_closures"], "loops": o["n_loops"]}
+            shapes[f"{g['name']}:{n}"] = {"closures": o["n_closures"], "loops": o["n_loops"],
+                                          "closure_hashes": sorted({c[2] for c in o.get("closure_info", [])})}
 json.dump(shapes, open(os.path.join(vxlib.VERIF, "specs", "shapes.json"), "w"), indent=1, sort_keys=True)
 print(len(shapes), "units with closures/loops recorded")
